@@ -1,6 +1,7 @@
 import MmtkModel.Model.SideMetaSearch
 import MmtkModel.Props.C21
 import MmtkModel.Lemmas.SideSearch
+import MmtkModel.Lemmas.SideFind
 /-!
 # C22 — Side-metadata search and scan agree with a naive scan
 
@@ -21,6 +22,13 @@ Full statements (not proved here):
   where `I` = regions `⌊(a-limit+1)/R⌋ … ⌊a/R⌋`, `MapConsistent` = (data mapped → metadata mapped) ∧
   (data unmapped at `r` → every readable field at or below `r` in `I` is zero).
 * `findNext_fast_eq_simple` : same with `I` = regions `⌊a/R⌋ … ⌈(a+limit)/R⌉-1`, no side condition.
+  **NOW PROVED** (section "the forward search" below) together with `findNext_spec` (least region start
+  `≥ ⌊a⌋`, `< a + limit`, non-zero field, no unmapped data region up to it) and `findNext_public` (the debug
+  `assert_eq!` never fires).  Hypotheses: `env.ok` (granule = positive multiple of 8, mapped-ness per granule),
+  `2^logRegion ∣ gran`, `0 < s.start`, table start aligned to the field size, `logBits ≤ logRegion` for
+  sub-byte fields, `0 < limit`, `alignUp (a+limit) R < 2^64`, `MapConsistent env s m ⌊a/R⌋ ⌈(a+limit)/R⌉ true`
+  (Lemmas/SideFind.lean), and for fast = naive `mapped a ∨ R ≤ a` (the naive loop never asks whether
+  address 0 is mapped: `findNext_region0_witness`).
 * `findPrev_spec` : the result is the greatest region start `x` with `a - limit < x ≤ ⌊a⌋`, field ≠ 0 and
   no unmapped data region in `(x, a]`.
 * `scan_fast_eq_naive`, `scan_spec` : for region-aligned `start ≤ end` and a 1-bit spec,
@@ -635,5 +643,482 @@ example : let s : Spec := { start := 1000, logBits := 0, logRegion := 3 }
     let m : Mem := fun x => if x = 1001 then 3 else if x = 1002 then 2 else 0
     s.ok ∧ s.logBits = 0 ∧ (64 % 2 ^ s.logRegion = 0) ∧ (160 % 2 ^ s.logRegion = 0) ∧
     scanFast s m 64 160 = [64, 72, 136] ∧ scanSpec s m 64 160 = [64, 72, 136] := by decide
+
+/-! # the forward search: fast = naive = specification -/
+
+theorem testBit_readLE8 (m : Mem) (hm : ByteMem m) (c i : Nat) (hi : i < 64) :
+    (readLE m c 8).testBit i = bitAt m (8 * c + i) := by
+  rw [testBit_readLE m hm]
+  have h1 : (8 * c + i) / 8 = c + i / 8 := by omega
+  have h2 : (8 * c + i) % 8 = i % 8 := by omega
+  have h3 : i < 8 * 8 := by omega
+  unfold bitAt
+  rw [h1, h2]; simp [h3]
+
+theorem readLE8_lt (m : Mem) (hm : ByteMem m) (c : Nat) : readLE m c 8 < 2 ^ 64 := by
+  rw [← pow256_8]; exact HeaderMeta.readLE_lt m hm c 8
+
+/-- the bytes of an 8-aligned word lie in one granule. -/
+theorem word_block (env : MapEnv) (henv : env.ok) (c i : Nat) (hc : c % 8 = 0) (hi : i < 8) :
+    env.mapped (c + i) = env.mapped c := by
+  apply henv.const
+  obtain ⟨k, hk⟩ := henv.gran8
+  have hkpos : 0 < k := by
+    have := henv.gpos; rw [hk] at this; omega
+  rw [hk, ← Nat.div_div_eq_div_mul, ← Nat.div_div_eq_div_mul]
+  congr 1
+  omega
+
+/-- one in-byte step of the forward search (`find_first_non_zero_bit::<u8>` on a mapped byte). -/
+theorem byte_fwd (env : MapEnv) (m : Mem) (c sb eb : Nat) (hmc : env.mapped c = true) (h1 : sb < eb) (h2 : eb ≤ 8) :
+    match findFirstBit 8 (m c) sb eb with
+    | some bit => bit < 8 ∧ ∀ n, eb - sb ≤ n → fwdSearch env m n (8 * c + sb) = .found (8 * c + bit)
+    | none => fwdSearch env m (eb - sb) (8 * c + sb) = .notFound := by
+  have hspec := findFirstBit_spec 8 (m c) sb eb (Nat.le_of_lt h1) h2 (by omega)
+  cases h : findFirstBit 8 (m c) sb eb with
+  | some bit =>
+    rw [h] at hspec
+    obtain ⟨a1, a2, a3, a4⟩ := hspec
+    refine ⟨by omega, fun n hn => ?_⟩
+    apply fwdSearch_hit env m n _ _ (by omega) (by omega)
+    · intro p p1 p2
+      have e1 : p / 8 = c := by omega
+      refine ⟨by rw [e1]; exact hmc, ?_⟩
+      unfold bitAt; rw [e1]; exact a4 (p % 8) (by omega) (by omega)
+    · have e1 : (8 * c + bit) / 8 = c := by omega
+      rw [e1]; exact hmc
+    · rw [bitAt_mk m c bit (by omega)]; exact a3
+  | none =>
+    rw [h] at hspec
+    apply fwdSearch_clear
+    intro p p1 p2
+    have e1 : p / 8 = c := by omega
+    refine ⟨by rw [e1]; exact hmc, ?_⟩
+    unfold bitAt; rw [e1]; exact hspec (p % 8) (by omega) (by omega)
+
+/-- one word step of the forward search (`find_first_non_zero_bit::<usize>` on an aligned, mapped word). -/
+theorem word_fwd (env : MapEnv) (henv : env.ok) (m : Mem) (hm : ByteMem m) (c : Nat) (hc8 : c % 8 = 0)
+    (hmc : env.mapped c = true) :
+    (readLE m c 8 = 0 → fwdSearch env m 64 (8 * c) = .notFound) ∧
+    (readLE m c 8 ≠ 0 → ∃ bit, findFirstBit 64 (readLE m c 8) 0 64 = some bit ∧ bit < 64 ∧
+      ∀ n, 64 ≤ n → fwdSearch env m n (8 * c) = .found (8 * c + bit)) := by
+  have hmap : ∀ p, 8 * c ≤ p → p < 8 * c + 64 → env.mapped (p / 8) = true := by
+    intro p p1 p2
+    have : p / 8 = c + (p / 8 - c) := by omega
+    rw [this, word_block env henv c _ hc8 (by omega)]; exact hmc
+  have hspec := findFirstBit_spec 64 (readLE m c 8) 0 64 (by omega) (by omega) (by omega)
+  constructor
+  · intro h0
+    apply fwdSearch_clear
+    intro p p1 p2
+    refine ⟨hmap p p1 p2, ?_⟩
+    have := testBit_readLE8 m hm c (p - 8 * c) (by omega)
+    have e : 8 * c + (p - 8 * c) = p := by omega
+    rw [e, h0] at this
+    simpa using this.symm
+  · intro hne
+    cases h : findFirstBit 64 (readLE m c 8) 0 64 with
+    | none =>
+      rw [h] at hspec
+      exfalso; apply hne
+      apply Nat.eq_of_testBit_eq
+      intro i
+      rw [Nat.zero_testBit]
+      by_cases hi : i < 64
+      · exact hspec i (by omega) hi
+      · exact Nat.testBit_lt_two_pow (Nat.lt_of_lt_of_le (readLE8_lt m hm c) (Nat.pow_le_pow_right (by omega) (by omega)))
+    | some bit =>
+      rw [h] at hspec
+      obtain ⟨a1, a2, a3, a4⟩ := hspec
+      refine ⟨bit, rfl, a2, fun n hn => ?_⟩
+      apply fwdSearch_hit env m n _ _ (by omega) (by omega)
+      · intro p p1 p2
+        refine ⟨hmap p p1 (by omega), ?_⟩
+        have := testBit_readLE8 m hm c (p - 8 * c) (by omega)
+        have e : 8 * c + (p - 8 * c) = p := by omega
+        rw [e] at this
+        rw [← this]; exact a4 _ (by omega) (by omega)
+      · exact hmap _ (by omega) (by omega)
+      · rw [← testBit_readLE8 m hm c bit a2]; exact a3
+
+/-- the mapped-chunk check of the forward loops. -/
+theorem chkFwd (env : MapEnv) (henv : env.ok) (cursor grain : Nat)
+    (hc : ∀ x, cursor ≤ x → x ≤ grain → env.mapped x = true) :
+    ((if cursor > grain then (if env.mapped cursor then some (alignUp cursor env.gran - 1) else none) else some grain) = none ∧
+      env.mapped cursor = false) ∨
+    (∃ g', (if cursor > grain then (if env.mapped cursor then some (alignUp cursor env.gran - 1) else none) else some grain) = some g' ∧
+      env.mapped cursor = true ∧ ∀ x, cursor ≤ x → x ≤ g' → env.mapped x = true) := by
+  by_cases hg : cursor > grain
+  · by_cases hmp : env.mapped cursor = true
+    · refine Or.inr ⟨alignUp cursor env.gran - 1, by simp only [hg, hmp, if_true], hmp, fun x a b => ?_⟩
+      rw [alignUp_block env henv _ x a b, hmp]
+    · have hmp' : env.mapped cursor = false := by simpa using hmp
+      exact Or.inl ⟨by simp [hg, hmp'], hmp'⟩
+  · exact Or.inr ⟨grain, by simp only [hg, if_false], hc _ (Nat.le_refl _) (by omega), hc⟩
+
+/-- **`find_first_non_zero_bit_in_metadata_bytes`** is the position-level forward search. -/
+theorem findFirstInBytesLoop_eq (env : MapEnv) (henv : env.ok) (m : Mem) (hm : ByteMem m) (E : Nat) :
+    ∀ fuel cursor grain, cursor ≤ E → E - cursor ≤ fuel →
+    (∀ x, cursor ≤ x → x ≤ grain → env.mapped x = true) →
+    findFirstInBytesLoop env m E fuel cursor grain = (fwdSearch env m (8 * (E - cursor)) (8 * cursor)).toFind := by
+  intro fuel
+  induction fuel with
+  | zero =>
+    intro cursor grain h1 h2 _
+    have : E - cursor = 0 := by omega
+    simp [findFirstInBytesLoop, this, fwdSearch, PosRes.toFind]
+  | succ f ih =>
+    intro cursor grain h1 h2 hc
+    simp only [findFirstInBytesLoop]
+    by_cases hlt : cursor < E
+    · simp only [hlt, not_true_eq_false, if_false]
+      rcases chkFwd env henv cursor grain hc with ⟨e, hmp⟩ | ⟨g', e, hmp, hv⟩
+      · rw [e]
+        have hq : (8 * cursor) / 8 = cursor := by omega
+        rw [fwdSearch_unm env m _ _ (8 * cursor) (Nat.le_refl _) (by omega) (fun p a b => by omega) (by rw [hq]; exact hmp)]
+        rfl
+      · rw [e]
+        by_cases hstep : cursor % 8 = 0 ∧ cursor + 8 ≤ E
+        · simp only [hstep, and_self, if_true]
+          have esplit : 8 * (E - cursor) = 64 + 8 * (E - (cursor + 8)) := by omega
+          have h64 : 64 ≤ 8 * (E - cursor) := by omega
+          have hfuel : E - (cursor + 8) ≤ f := by omega
+          obtain ⟨w0, w1⟩ := word_fwd env henv m hm cursor hstep.1 hmp
+          by_cases hv0 : readLE m cursor 8 = 0
+          · simp only [hv0, ne_eq, not_true_eq_false, if_false]
+            rw [ih (cursor + 8) g' hstep.2 hfuel (fun x a b => hv x (Nat.le_trans (Nat.le_add_right _ _) a) b), esplit, fwdSearch_append, w0 hv0]
+            have e8 : 8 * cursor + 64 = 8 * (cursor + 8) := by omega
+            simp only [PosRes.orElse, e8]
+          · obtain ⟨bit, b1, b2, b3⟩ := w1 hv0
+            simp only [hv0, ne_eq, not_false_eq_true, if_true, b1]
+            rw [b3 _ h64]
+            simp only [PosRes.toFind, Nat.shiftRight_eq_div_pow, Nat.shiftLeft_eq]
+            have e1 : (8 * cursor + bit) / 8 = cursor + bit / 2 ^ 3 := by omega
+            have e2 : (8 * cursor + bit) % 8 = bit - bit / 2 ^ 3 * 2 ^ 3 := by omega
+            rw [e1, e2]
+        · have hs1 : (if cursor % 8 = 0 ∧ cursor + 8 ≤ E then 8 else 1) = 1 := by simp only [hstep, if_false]
+          simp only [hs1, Nat.reduceEqDiff, if_false]
+          have hb := byte_fwd env m cursor 0 8 hmp (by omega) (by omega)
+          have esplit : 8 * (E - cursor) = 8 + 8 * (E - (cursor + 1)) := by omega
+          cases hfb : findFirstBit 8 (m cursor) 0 8 with
+          | some bit =>
+            rw [hfb] at hb
+            obtain ⟨b1, b2⟩ := hb
+            have := b2 (8 * (E - cursor)) (by omega)
+            rw [Nat.add_zero] at this
+            rw [this]
+            simp only [PosRes.toFind]
+            have e1 : (8 * cursor + bit) / 8 = cursor := by omega
+            have e2 : (8 * cursor + bit) % 8 = bit := by omega
+            rw [e1, e2]
+          | none =>
+            rw [hfb] at hb
+            simp only [Nat.add_zero, Nat.sub_zero] at hb
+            rw [ih (cursor + 1) g' (by omega) (by omega) (fun x a b => hv x (by omega) b), esplit, fwdSearch_append, hb]
+            have e8 : 8 * cursor + 8 = 8 * (cursor + 1) := by omega
+            simp only [PosRes.orElse, e8]
+    · have : E - cursor = 0 := by omega
+      simp [hlt, this, fwdSearch, PosRes.toFind]
+
+/-- **`find_first_non_zero_bit_in_metadata_bits`** is the position-level forward search. -/
+theorem findFirstInBits_eq (env : MapEnv) (m : Mem) (a sb eb : Nat) (h1 : sb < eb) (h2 : eb ≤ 8) :
+    findFirstInBits env m a sb eb = (fwdSearch env m (eb - sb) (8 * a + sb)).toFind := by
+  unfold findFirstInBits
+  by_cases hmp : env.mapped a = true
+  · simp only [hmp, Bool.not_true, Bool.false_eq_true, if_false]
+    have hb := byte_fwd env m a sb eb hmp h1 h2
+    cases hfb : findFirstBit 8 (m a) sb eb with
+    | some bit =>
+      rw [hfb] at hb
+      obtain ⟨b1, b2⟩ := hb
+      rw [b2 _ (Nat.le_refl _)]
+      simp only [PosRes.toFind]
+      have e1 : (8 * a + bit) / 8 = a := by omega
+      have e2 : (8 * a + bit) % 8 = bit := by omega
+      rw [e1, e2]
+    | none =>
+      rw [hfb] at hb
+      rw [hb]; rfl
+  · have hmp' : env.mapped a = false := by simpa using hmp
+    simp only [hmp', Bool.not_false, if_true]
+    have hq : (8 * a + sb) / 8 = a := by omega
+    rw [fwdSearch_unm env m _ _ (8 * a + sb) (Nat.le_refl _) (by omega) (fun p x y => by omega) (by rw [hq]; exact hmp')]
+    rfl
+
+
+/-- arithmetic of the bounds of the forward search. -/
+theorem next_bounds (a limit lr : Nat) (hlim : 0 < limit) :
+    alignDown a (2 ^ lr) = a / 2 ^ lr * 2 ^ lr ∧
+    alignUp (a + limit) (2 ^ lr) = (a + limit + 2 ^ lr - 1) / 2 ^ lr * 2 ^ lr ∧
+    a / 2 ^ lr < (a + limit + 2 ^ lr - 1) / 2 ^ lr ∧
+    a + limit ≤ (a + limit + 2 ^ lr - 1) / 2 ^ lr * 2 ^ lr ∧
+    (∀ q, q < (a + limit + 2 ^ lr - 1) / 2 ^ lr → q * 2 ^ lr < a + limit) ∧
+    (a + limit + 2 ^ lr - 1) / 2 ^ lr - a / 2 ^ lr ≤ limit / 2 ^ lr + 2 := by
+  have hR := Nat.two_pow_pos lr
+  generalize 2 ^ lr = R at *
+  have f1 : a / R * R ≤ a := Nat.div_mul_le_self a R
+  have f2 : a < a / R * R + R := Nat.lt_div_mul_add hR
+  have f3 : (a + limit + R - 1) / R * R ≤ a + limit + R - 1 := Nat.div_mul_le_self _ R
+  have f4 : a + limit + R - 1 < (a + limit + R - 1) / R * R + R := Nat.lt_div_mul_add hR
+  have f5 : limit / R * R ≤ limit := Nat.div_mul_le_self _ R
+  have f6 : limit < limit / R * R + R := Nat.lt_div_mul_add hR
+  have g3 : a / R < (a + limit + R - 1) / R := by
+    apply Nat.lt_of_succ_le
+    apply (Nat.le_div_iff_mul_le hR).2
+    rw [Nat.succ_mul]; omega
+  refine ⟨alignDown_eq_div a R, by unfold alignUp; exact alignDown_eq_div _ R, ?_⟩
+  generalize a / R = r0 at *
+  generalize limit / R = L at *
+  generalize (a + limit + R - 1) / R = r1 at *
+  refine ⟨g3, by omega, ?_, ?_⟩
+  · intro q hq
+    have := Nat.mul_le_mul_right R (Nat.succ_le_of_lt hq)
+    rw [Nat.succ_mul] at this
+    omega
+  · have e : (r0 + L + 3) * R = r0 * R + L * R + 3 * R := by rw [Nat.add_mul, Nat.add_mul]
+    have : r1 * R < (r0 + L + 3) * R := by omega
+    have := Nat.lt_of_mul_lt_mul_right this
+    omega
+
+/-- a region lies in one granule. -/
+theorem region_block (env : MapEnv) (henv : env.ok) (lr : Nat) (hgran : 2 ^ lr ∣ env.gran) (a : Nat) :
+    env.mapped (a / 2 ^ lr * 2 ^ lr) = env.mapped a := by
+  apply henv.const
+  obtain ⟨k, hk⟩ := hgran
+  rw [hk, ← Nat.div_div_eq_div_mul, ← Nat.div_div_eq_div_mul, Nat.mul_div_cancel _ (Nat.two_pow_pos lr)]
+
+theorem fieldBase_sub (s : Spec) (r0 r1 : Nat) (h : r0 ≤ r1) :
+    fieldBase s r1 - fieldBase s r0 = (r1 - r0) * 2 ^ s.logBits := by
+  unfold fieldBase
+  rw [Nat.sub_mul]
+  have := Nat.mul_le_mul_right (2 ^ s.logBits) h
+  omega
+
+/-- **the fast forward search is the region-level search** over the regions
+`⌊a/R⌋ … ⌈(a+limit)/R⌉ − 1`. -/
+theorem findNextFast_eq_region (env : MapEnv) (henv : env.ok) (s : Spec) (hs : s.ok)
+    (hal : s.start % 2 ^ (s.logBits - 3) = 0) (hlr : s.logBits < 3 → s.logBits ≤ s.logRegion) (hst : 0 < s.start)
+    (hgran : 2 ^ s.logRegion ∣ env.gran) (m : Mem) (hm : ByteMem m) (a limit : Nat) (hlim : 0 < limit)
+    (hend : alignUp (a + limit) (2 ^ s.logRegion) < 2 ^ 64)
+    (hmc : MapConsistent env s m (a / 2 ^ s.logRegion) ((a + limit + 2 ^ s.logRegion - 1) / 2 ^ s.logRegion) true) :
+    findNextFast env s m a limit =
+      regionFwd env s m ((a + limit + 2 ^ s.logRegion - 1) / 2 ^ s.logRegion - a / 2 ^ s.logRegion) (a / 2 ^ s.logRegion) := by
+  have hR := Nat.two_pow_pos s.logRegion
+  obtain ⟨b1, b2, b3, b4, b5, b6⟩ := next_bounds a limit s.logRegion hlim
+  have hmap0 := region_block env henv s.logRegion hgran a
+  have hr0 : a >>> s.logRegion = a / 2 ^ s.logRegion := Nat.shiftRight_eq_div_pow ..
+  rw [b2] at hend
+  generalize a / 2 ^ s.logRegion = r0 at *
+  generalize (a + limit + 2 ^ s.logRegion - 1) / 2 ^ s.logRegion = r1 at *
+  have ha64 : a < 2 ^ 64 := by omega
+  obtain ⟨n, hn⟩ : ∃ n, r1 - r0 = n + 1 := ⟨r1 - r0 - 1, by omega⟩
+  have hlabs : load s m a = absArr m s r0 := by rw [load_eq_absArr s hs m a ha64, hr0]
+  unfold findNextFast
+  by_cases hmapa : env.mapped a = true
+  · simp only [hmapa, Bool.not_true, Bool.false_eq_true, if_false]
+    by_cases hload : load s m a ≠ 0
+    · rw [if_pos hload, hn]
+      simp only [regionFwd]
+      rw [hlabs] at hload
+      rw [hmap0, hmapa, b1]
+      simp [hload]
+    · rw [if_neg hload, b1, b2]
+      have hle : r0 * 2 ^ s.logRegion ≤ r1 * 2 ^ s.logRegion := Nat.mul_le_mul_right _ (by omega)
+      have eE : r0 * 2 ^ s.logRegion + (r1 * 2 ^ s.logRegion - r0 * 2 ^ s.logRegion) = r1 * 2 ^ s.logRegion := by omega
+      obtain ⟨e1, e2, c1, c2, ho⟩ := bulk_interval s hs (r0 * 2 ^ s.logRegion) (r1 * 2 ^ s.logRegion - r0 * 2 ^ s.logRegion) (by omega)
+      rw [eE] at e2 c2 ho
+      rw [shiftRight_mul_pow] at e1 e2
+      have ht := breakBitRange_partition _ _ _ _ c1 c2 ho
+      rw [e1, e2] at ht
+      rw [findVisit_tiles_fwd env s m _ (fieldBase s r0) ?_ ht (Nat.le_refl _)]
+      · have e : r0 + (r1 - r0) = r1 := by omega
+        rw [fieldBase_sub s r0 r1 (by omega),
+          fwd_fast_region env s hs hal hlr m hm (r1 - r0) r0 (by rw [e]; omega) (by rw [e]; exact hmc)]
+        cases hres : regionFwd env s m (r1 - r0) r0 with
+        | none => rfl
+        | some x =>
+          obtain ⟨r', q1, q2, q3, _⟩ := (regionFwd_some_iff env s m _ _ _).1 hres
+          subst q3
+          have g1 : r' * 2 ^ s.logRegion ≥ r0 * 2 ^ s.logRegion := Nat.mul_le_mul_right _ q1
+          have g2 : r' * 2 ^ s.logRegion < r1 * 2 ^ s.logRegion := Nat.mul_lt_mul_of_pos_right (by omega) hR
+          simp [alignDown_mul, g1, g2]
+      · intro r hw hlo
+        have hfb : 8 * s.start ≤ fieldBase s r0 := by unfold fieldBase; omega
+        cases r with
+        | bytes st en =>
+          simp only [BBR.lo, BBR.hi, BBR.wf] at hw hlo ⊢
+          have e8 : 8 * en - 8 * st = 8 * (en - st) := by omega
+          rw [e8]
+          exact findFirstInBytesLoop_eq env henv m hm en _ st 0 (Nat.le_of_lt hw) (by omega) (fun x a b => by omega)
+        | bits ad bs be =>
+          simp only [BBR.lo, BBR.hi, BBR.wf] at hw hlo ⊢
+          have e8 : 8 * ad + be - (8 * ad + bs) = be - bs := by omega
+          rw [e8]
+          exact findFirstInBits_eq env m ad bs be hw.1 hw.2
+  · have hmapa' : env.mapped a = false := by simpa using hmapa
+    rw [hn]
+    simp only [hmapa', Bool.not_false, if_true, regionFwd, hmap0]
+
+/-- **the naive forward search is the region-level search** over the same regions. The naive loop
+never asks whether address 0 is mapped (its cache starts at 0), hence the side condition. -/
+theorem findNextSimple_eq_region (env : MapEnv) (henv : env.ok) (s : Spec) (hs : s.ok)
+    (hgran : 2 ^ s.logRegion ∣ env.gran) (m : Mem) (a limit : Nat) (hlim : 0 < limit)
+    (hend : alignUp (a + limit) (2 ^ s.logRegion) < 2 ^ 64)
+    (h0 : env.mapped a = true ∨ 2 ^ s.logRegion ≤ a) :
+    findNextSimple env s m a limit =
+      regionFwd env s m ((a + limit + 2 ^ s.logRegion - 1) / 2 ^ s.logRegion - a / 2 ^ s.logRegion) (a / 2 ^ s.logRegion) := by
+  have hR := Nat.two_pow_pos s.logRegion
+  obtain ⟨b1, b2, b3, b4, b5, b6⟩ := next_bounds a limit s.logRegion hlim
+  have hmap0 := region_block env henv s.logRegion hgran a
+  rw [b2] at hend
+  have hr0 : 2 ^ s.logRegion ≤ a → 1 ≤ a / 2 ^ s.logRegion := fun h => (Nat.le_div_iff_mul_le hR).2 (by omega)
+  generalize a / 2 ^ s.logRegion = r0 at *
+  generalize (a + limit + 2 ^ s.logRegion - 1) / 2 ^ s.logRegion = r1 at *
+  unfold findNextSimple
+  simp only
+  rw [b1]
+  have e : r0 + (r1 - r0) = r1 := by omega
+  apply findNextSimpleLoop_eq env henv s hs m (a + limit) (r1 - r0) _ r0 0 b6
+  · rw [e]; omega
+  · intro q q1 q2; exact b5 q (by omega)
+  · rw [e]; omega
+  · intro x x1 x2
+    have hx : x = 0 := by omega
+    subst hx
+    rcases h0 with h | h
+    · have : r0 * 2 ^ s.logRegion = 0 := by omega
+      rw [this] at hmap0
+      rw [hmap0]; exact h
+    · have := hr0 h
+      have := Nat.mul_le_mul_right (2 ^ s.logRegion) this
+      omega
+
+
+/-- **C22 (forward search, fast = naive)**: under `MapConsistent` on the searched regions
+`⌊a/R⌋ … ⌈(a+limit)/R⌉ − 1` the word-at-a-time search and the region-by-region search return the same.
+Side conditions (all true of the real layout): granules are multiples of 8 bytes and of the region size and
+mapped-ness is per granule (`env.ok`, `hgran`); the metadata table does not start at address 0 and is
+aligned to the field size; sub-byte fields are not wider than their region is long; no address wraps;
+the search does not start in an unmapped region at address 0 (the naive loop never asks whether
+address 0 is mapped — see `findNext_region0_witness`). -/
+theorem findNext_fast_eq_simple (env : MapEnv) (henv : env.ok) (s : Spec) (hs : s.ok)
+    (hal : s.start % 2 ^ (s.logBits - 3) = 0) (hlr : s.logBits < 3 → s.logBits ≤ s.logRegion) (hst : 0 < s.start)
+    (hgran : 2 ^ s.logRegion ∣ env.gran) (m : Mem) (hm : ByteMem m) (a limit : Nat) (hlim : 0 < limit)
+    (hend : alignUp (a + limit) (2 ^ s.logRegion) < 2 ^ 64)
+    (h0 : env.mapped a = true ∨ 2 ^ s.logRegion ≤ a)
+    (hmc : MapConsistent env s m (a / 2 ^ s.logRegion) ((a + limit + 2 ^ s.logRegion - 1) / 2 ^ s.logRegion) true) :
+    findNextFast env s m a limit = findNextSimple env s m a limit := by
+  rw [findNextFast_eq_region env henv s hs hal hlr hst hgran m hm a limit hlim hend hmc,
+    findNextSimple_eq_region env henv s hs hgran m a limit hlim hend h0]
+
+/-- the public entry never trips its `assert_eq!(fast, naive)`. -/
+theorem findNext_public (debug : Bool) (env : MapEnv) (henv : env.ok) (s : Spec) (hs : s.ok)
+    (hal : s.start % 2 ^ (s.logBits - 3) = 0) (hlr : s.logBits < 3 → s.logBits ≤ s.logRegion) (hst : 0 < s.start)
+    (hgran : 2 ^ s.logRegion ∣ env.gran) (m : Mem) (hm : ByteMem m) (a limit : Nat) (hlim : 0 < limit)
+    (hend : alignUp (a + limit) (2 ^ s.logRegion) < 2 ^ 64)
+    (h0 : env.mapped a = true ∨ 2 ^ s.logRegion ≤ a)
+    (hmc : MapConsistent env s m (a / 2 ^ s.logRegion) ((a + limit + 2 ^ s.logRegion - 1) / 2 ^ s.logRegion) true) :
+    findNext debug env s m a limit = some (findNextFast env s m a limit) := by
+  have h := findNext_fast_eq_simple env henv s hs hal hlr hst hgran m hm a limit hlim hend h0 hmc
+  have hl : (limit == 0) = false := by simp; omega
+  unfold findNext
+  simp [hl, h]
+
+/-- **C22 (forward search, specification)**: the result is the least region start `x ≥ ⌊a⌋` with a
+non-zero field and `x < a + limit`, provided no data region from `⌊a⌋` up to and including `x` is
+unmapped; otherwise nothing. -/
+theorem findNext_spec (env : MapEnv) (henv : env.ok) (s : Spec) (hs : s.ok)
+    (hal : s.start % 2 ^ (s.logBits - 3) = 0) (hlr : s.logBits < 3 → s.logBits ≤ s.logRegion) (hst : 0 < s.start)
+    (hgran : 2 ^ s.logRegion ∣ env.gran) (m : Mem) (hm : ByteMem m) (a limit : Nat) (hlim : 0 < limit)
+    (hend : alignUp (a + limit) (2 ^ s.logRegion) < 2 ^ 64)
+    (hmc : MapConsistent env s m (a / 2 ^ s.logRegion) ((a + limit + 2 ^ s.logRegion - 1) / 2 ^ s.logRegion) true)
+    (x : Nat) :
+    findNextFast env s m a limit = some x ↔
+      (x % 2 ^ s.logRegion = 0 ∧ alignDown a (2 ^ s.logRegion) ≤ x ∧ x < a + limit ∧ load s m x ≠ 0 ∧
+        (∀ y, alignDown a (2 ^ s.logRegion) ≤ y → y < x → y % 2 ^ s.logRegion = 0 → load s m y = 0) ∧
+        (∀ y, alignDown a (2 ^ s.logRegion) ≤ y → y ≤ x → y % 2 ^ s.logRegion = 0 → env.mapped y = true)) := by
+  have hR := Nat.two_pow_pos s.logRegion
+  rw [findNextFast_eq_region env henv s hs hal hlr hst hgran m hm a limit hlim hend hmc, regionFwd_some_iff]
+  obtain ⟨b1, b2, b3, b4, b5, b6⟩ := next_bounds a limit s.logRegion hlim
+  rw [b2] at hend
+  rw [b1]
+  generalize a / 2 ^ s.logRegion = r0 at *
+  generalize (a + limit + 2 ^ s.logRegion - 1) / 2 ^ s.logRegion = r1 at *
+  have hld : ∀ q, q < r1 → load s m (q * 2 ^ s.logRegion) = absArr m s q := fun q hq =>
+    load_region s hs m q (by have := Nat.mul_lt_mul_of_pos_right hq hR; omega)
+  constructor
+  · rintro ⟨r', q1, q2, rfl, q4, q5, q6⟩
+    have hr' : r' < r1 := by omega
+    refine ⟨Nat.mul_mod_left .., Nat.mul_le_mul_right _ q1, b5 r' hr', by rw [hld r' hr']; exact q4, ?_, ?_⟩
+    · intro y y1 y2 y3
+      obtain ⟨q, rfl⟩ : ∃ q, y = q * 2 ^ s.logRegion := ⟨_, (aligned_eq y s.logRegion y3).symm⟩
+      have c1 := Nat.le_of_mul_le_mul_right y1 hR
+      have c2 := Nat.lt_of_mul_lt_mul_right y2
+      rw [hld q (by omega)]; exact q5 q c1 c2
+    · intro y y1 y2 y3
+      obtain ⟨q, rfl⟩ : ∃ q, y = q * 2 ^ s.logRegion := ⟨_, (aligned_eq y s.logRegion y3).symm⟩
+      exact q6 q (Nat.le_of_mul_le_mul_right y1 hR) (Nat.le_of_mul_le_mul_right y2 hR)
+  · rintro ⟨x1, x2, x3, x4, x5, x6⟩
+    obtain ⟨r', rfl⟩ : ∃ q, x = q * 2 ^ s.logRegion := ⟨_, (aligned_eq x s.logRegion x1).symm⟩
+    have c1 := Nat.le_of_mul_le_mul_right x2 hR
+    have c2 : r' < r1 := by
+      apply Nat.lt_of_mul_lt_mul_right (a := 2 ^ s.logRegion); omega
+    refine ⟨r', c1, by omega, rfl, by rw [← hld r' c2]; exact x4, fun q d1 d2 => ?_, fun q d1 d2 => ?_⟩
+    · rw [← hld q (by omega)]
+      exact x5 _ (Nat.mul_le_mul_right _ d1) (Nat.mul_lt_mul_of_pos_right d2 hR) (Nat.mul_mod_left ..)
+    · exact x6 _ (Nat.mul_le_mul_right _ d1) (Nat.mul_le_mul_right _ d2) (Nat.mul_mod_left ..)
+
+/-- the side condition `h0` cannot be dropped from the *model*: nothing mapped, origin in the region at
+address 0 whose field is non-zero — the fast version asks `is_mapped(3)` and gives up, the naive loop's
+cache (`mapped_chunk = 0`) skips the question for cursor 0. (No heap contains address 0.) -/
+theorem findNext_region0_witness :
+    let env : MapEnv := { mapped := fun _ => false, gran := 64 }
+    let s : Spec := { start := 1024, logBits := 0, logRegion := 3 }
+    let m : Mem := fun x => if x = 1024 then 1 else 0
+    findNextFast env s m 3 8 = none ∧ findNextSimple env s m 3 8 = some 0 := by
+  decide
+
+/-- the hypotheses of the forward theorems are satisfiable by a non-trivial state: data `[0,128)` mapped,
+`[128, 1024)` not, metadata (from 1024) mapped, the bit of region 10 (address 80) set; searching from 20
+over 200 bytes crosses the unmapped chunk boundary at region 16. -/
+example :
+    let env : MapEnv := { mapped := fun x => decide (x < 128) || decide (1024 ≤ x), gran := 64 }
+    let s : Spec := { start := 1024, logBits := 0, logRegion := 3 }
+    let m : Mem := fun x => if x = 1025 then 4 else 0
+    env.ok ∧ s.ok ∧ s.start % 2 ^ (s.logBits - 3) = 0 ∧ (s.logBits < 3 → s.logBits ≤ s.logRegion) ∧ 0 < s.start ∧
+    2 ^ s.logRegion ∣ env.gran ∧ ByteMem m ∧ alignUp (20 + 200) (2 ^ s.logRegion) < 2 ^ 64 ∧
+    MapConsistent env s m (20 / 2 ^ s.logRegion) ((20 + 200 + 2 ^ s.logRegion - 1) / 2 ^ s.logRegion) true ∧
+    findNextFast env s m 20 200 = some 80 ∧ findNextFast env s m 100 200 = none := by
+  intro env s m
+  refine ⟨⟨by decide, by decide, ?_⟩, by decide, by decide, by decide, by decide, by decide, ?_, by decide, ?_, by decide, by decide⟩
+  · intro x y h
+    show (decide (x < 128) || decide (1024 ≤ x)) = (decide (y < 128) || decide (1024 ≤ y))
+    have h' : x / 64 = y / 64 := h
+    have e1 : (x < 128) ↔ (y < 128) := by omega
+    have e2 : (1024 ≤ x) ↔ (1024 ≤ y) := by omega
+    simp [e1, e2]
+  · intro x; show (if x = 1025 then 4 else 0) < 256; split <;> omega
+  · have hr : (20 / 2 ^ s.logRegion) = 2 := by decide
+    have hr1 : ((20 + 200 + 2 ^ s.logRegion - 1) / 2 ^ s.logRegion) = 28 := by decide
+    rw [hr, hr1]
+    have hfb : ∀ r, fieldBase s r = 8192 + r := by intro r; show 8 * 1024 + r * 2 ^ 0 = _; omega
+    constructor
+    · intro r _ _ _ p hp
+      obtain ⟨p1, p2⟩ := hp
+      rw [hfb] at p1
+      show (decide (p / 8 < 128) || decide (1024 ≤ p / 8)) = true
+      have : 1024 ≤ p / 8 := by omega
+      simp [this]
+    · intro r r' a1 a2 a3 a4 a5 hun p hp _
+      obtain ⟨p1, p2⟩ := hp
+      rw [hfb] at p1 p2
+      have p2' : p < 8192 + r' + 1 := p2
+      have a5' : r ≤ r' := a5
+      have hun' : (decide (r * 8 < 128) || decide (1024 ≤ r * 8)) = false := hun
+      have hr16 : 16 ≤ r := by
+        simp at hun'; omega
+      show (if p / 8 = 1025 then 4 else 0).testBit (p % 8) = false
+      have : p / 8 ≠ 1025 := by omega
+      simp [this]
 
 end Mmtk.SideMeta
